@@ -53,6 +53,8 @@ def templates(cls):
                                       {"A": T(N[0], ["schema", N[2], ["schema", N[1], None]], None), "B": T(N[4], ["schema", N[6], ["database", N[7]]], None)})
     t["plain_unaliased"] = lambda N: q([["from_", [["src", "A"]]], ["from_", [["src", "B"]]], ["select", [["col", "A", N[2]], ["col", "B", N[3]], ["py", N[4]]]], ["where", [["eq", ["col", "A", N[2]], ["col", "B", N[3]]]]],
                                         ["groupby", [["py", N[4]]]], ["orderby", [["py", N[5]]]]], {"A": T(N[0]), "B": T(N[1])})
+    t["make_tables"] = lambda N: q([["from_", [["src", "A"]]], ["join", [["src", "B"], ["enum", "JoinType", "inner"]], {}, ["on", [["eq", ["col", "A", N[3]], ["col", "B", N[4]]]]]], ["select", [["col", "A", N[3]], ["col", "B", N[4]]]]],
+                                  {"A": ["mk", N[0]], "B": ["mk", N[1], N[2]]})
     t["insert"] = lambda N: q([["into", [["src", "A"]]], ["columns", [["py", N[1]], ["col", "A", N[2]]]], ["insert", [["raw", 1], ["raw", 2]]]], {"A": T(N[0], N[3])})
     t["insert_str_table"] = lambda N: q([["into", [["py", N[0]]]], ["columns", [["py", N[1]]]], ["insert", [["raw", 1]]]], {})
     t["update"] = lambda N: q([["update", [["src", "A"]]], ["set", [["py", N[1]], ["raw", 1]]], ["set", [["col", "A", N[2]], ["col", "A", N[3]]]], ["where", [["eq", ["col", "A", N[4]], ["raw", 2]]]]], {"A": T(N[0], None, N[5])})
